@@ -740,6 +740,9 @@ CrossQF == << <<>>, S("?"), S("?a"), S("?a#f"), S("#f"), S("? ") \o <<EAC>> \o S
 
 EncCat == << "utf-8", "latin-1", "ascii", "cp1252", "iso8859-15", "koi8-r", "cp437", "shift_jis", "euc_jp", "gbk",
              "big5", "utf-16", "utf-16-le", "utf-32", "cp500", "cp037", "utf-16-be", "utf-7", "hz",
+             \* 7-bit stateful codecs in which ASCII text is itself but other characters become escape sequences
+             \* followed by octets in the ASCII range ("/" and "." among them)
+             "iso2022_jp", "iso2022_jp_ext", "iso2022_jp_2004", "iso2022_kr",
              \* labels that are no text codec at all (unknown names, WHATWG labels Python lacks, byte-to-byte codecs)
              "x-user-defined", "iso-8859-8-i", "utf-88", "hex", "rot13", "base64", "zlib" >>   \* incl. EBCDIC: not ASCII compatible either
 
